@@ -76,7 +76,7 @@ type dynStats struct {
 
 func runDynamic(t Tools, dir string, seed uint64, tier string, out *vl.Out) dynStats {
 	r := vl.NewRng(seed ^ 0xC07D)
-	// quick: 7 x 4 x (3+1) = 112 executions + 138 of the regression corpus (3x32 + 24 + 3x6) + 60 of the aimed programs (6x8 + 12) = 310
+	// quick: 7 x 4 x (3+1) = 112 executions + 138 of the regression corpus (3x32 + 24 + 3x6) + 84 of the aimed programs (2x12 + 6x8 + 12) + 4 used-directory probes = 338
 	nProg, nOpt, nRuns, budget, limit := 7, 4, 3, 80, 25*time.Second
 	if tier == "thorough" {
 		nProg, nOpt, nRuns, budget, limit = 40, 10, 20, 250, 90*time.Second
@@ -426,8 +426,19 @@ func regressionCorpus(tier string) []witness {
 		`struct S { 1: map<K,string> m = {{"name": "k", "id": 1}: "first", {"name": "k", "id": 1}: "second"} }`)
 	same := sameNameProg(vl.NewRng(7), 0, 4)
 	patchProg := one("namespace go p0.main", "struct A { 1: string a }", "service S { A get(1: string k) }")
+	collide := func(n int) Prog {
+		cf, inc, rf := collidingFiles(0, n)
+		var fs []string
+		for i, t := range rf {
+			fs = append(fs, fmt.Sprintf("%d: %s l%d", i+1, t, i))
+		}
+		m := IDLFile{Name: "main0.thrift", Lines: append(inc, "namespace go p0.main", fmt.Sprintf("struct Main { %s }", strings.Join(fs, ", ")), "service S { Main get(1: string k) }")}
+		return Prog{Files: append([]IDLFile{m}, cf...)}
+	}
 	sameRuns := 8
 	aimed := []witness{
+		{"3 IDLs in different directories map to one output file: -r go", collide(3), OptSet{Name: "recurse", Pre: []string{"-r"}, Backend: "go"}, 12},
+		{"2 IDLs in different directories map to one output file: -r fastgo", collide(2), OptSet{Name: "recurse-fastgo", Pre: []string{"-r"}, Backend: "fastgo"}, 12},
 		{"same names in 4 includes: -r default template", same, OptSet{Name: "recurse", Pre: []string{"-r"}, Backend: "go"}, sameRuns},
 		{"same names in 4 includes: -r slim (ServiceThrows)", same, OptSet{Name: "recurse-slim", Pre: []string{"-r"}, Backend: "go", Opts: []string{"template=slim"}}, sameRuns},
 		{"same names in 4 includes: -r raw_struct, type meta", same, OptSet{Name: "recurse-raw_struct", Pre: []string{"-r"}, Backend: "go", Opts: []string{"template=raw_struct", "gen_type_meta"}}, sameRuns},
